@@ -59,7 +59,7 @@ _CANCEL = []
 def _cancel_cases():
     """A caller task is cancelled by ITS caller (task.cancel()) while queued for the protocol, or (TCP) while its
     request is in flight; the other callers must still be serialised and get their own answers.  UDP with keep-alive
-    off is left out: there the cancelled caller's close() closes the socket of the request in flight (DESIGN 13.9)."""
+    off is left out: there the cancelled caller's close() closes the socket of the request in flight (DESIGN 13.11)."""
     if not _CANCEL:
         tau, lat = 1.0, DEFAULT_LATENCY
         for tr, ka in (("udp", True), ("tcp", True), ("tcp", False)):
